@@ -1,11 +1,13 @@
 #!/usr/bin/env python3
-"""tools/seedkeep.py <Cxx> <m1|m2> '<confirm json>' '<caught by: check ids + fingerprints>' ['<strengthening note>']
+"""[SEED_BASE=/tmp/seed2 SEED_WAVE=w2] tools/seedkeep.py <Cxx> <m1|m2> '<confirm json>' '<caught by: check ids + fingerprints>' ['<strengthening note>']
 Copies a confirmed seeded change into /verif/seeded/<Cxx>-<m>/ with meta.json."""
 import json,sys,os,shutil,glob
 pid,m,confirm,caught=sys.argv[1:5]
 note=sys.argv[5] if len(sys.argv)>5 else ""
-src='/tmp/seed/%s/out/%s'%(pid,m)
-dst='/verif/seeded/%s-%s'%(pid,m)
+base=os.environ.get('SEED_BASE','/tmp/seed')
+wave=os.environ.get('SEED_WAVE','')
+src='%s/%s/out/%s'%(base,pid,m)
+dst='/verif/seeded/%s-%s%s'%(pid,wave,m)
 os.makedirs(dst,exist_ok=True)
 shutil.copy(src+'/patch.diff',dst+'/patch.diff')
 for f in glob.glob(src+'/*.go')+glob.glob(src+'/demo/*.go'):
